@@ -125,11 +125,21 @@ CLAIMS = {
         " Re-used: C02's parse_jwk / verify_decoded_signature obligations. The sd_hash input is the disclosure list as presented (no reshaping adaptor); panic models (char boundaries, String offsets) are switched on for the two no-panic obligations.",
    note='Trusted as C01. Outside: SdObjectDecoder::decode, hashing, JSON, crypto.',
    technique=TECH_M, ref='DESIGN.md section 2 C16'),
+ 'C20': dict(
+   text='Bounded symbolic verification of the dispatch wiring (binding audit + fault-schedule mode of the async bodies, from the generic MIR, so for every DID / document / handler type): '
+        'Resolver::resolve makes exactly one look-up in its own handler table with the method of the DID being resolved, invokes nothing and reports UnsupportedMethodError when the look-up is None, '
+        'otherwise applies exactly the command found to the whole DID text and returns its awaited result as it stands; Command::apply invokes its own callback with the input; the callback built by Command::new (both kinds) '
+        'converts the input text as received, never invokes the handler on a failed conversion, invokes it exactly once with the converted DID otherwise and returns its document / wraps its error as HandlerError; '
+        'attach_handler is one insertion under the caller\'s method name of the command built from the caller\'s handler; attach_did_jwk_handler registers under DIDJwk::METHOD; '
+        'resolve_multiple builds its set from the whole input slice without dropping adaptors, pushes exactly one future per set element capturing (this resolver, that DID), each of which pairs that DID with the document '
+        'resolve returned for it, and returns the try_collect of exactly those futures (loop unrolled 3 times).',
+   note='Trusted as C01. PARTIAL: independence of completion order rests on FuturesUnordered / TryCollect / HashMap semantics (third-party / std, behind uninterpreted callees) and is outside the claim; '
+        'the native battery runs all 27 delay assignments of three handlers but is confirmation only. Also outside: HashMap/HashSet semantics, attach_iota_handler(s), panicking or never-completing handlers.',
+   technique=TECH_M + '; async bodies executed as state machines with every awaited future Ready and results unconstrained', ref='DESIGN.md section 2 C20'),
 }
 
 NA = {
  'C15': 'operation histories over HashMap behind tokio::RwLock, Ed25519 keygen/sign, SHA-256 thumbprints, rand and thread interleavings: nothing of the property is encodable for a sequential bounded model checker (DESIGN.md section 5)',
- 'C20': 'async dispatch over HashMap + FuturesUnordered + completion orders; the smallest single-handler scenario hit the 30-minute cap twice under Kani (DESIGN.md section 5)',
 }
 
 def main():
